@@ -472,6 +472,7 @@ def plan_C09(ctx):
     e1_stored_read(ctx)
     e2_stored_read(ctx, n_of(ctx, 48, 600))
     run_family(ctx, "match", n_of(ctx, 40, 400), perfile=20, seed_off=6)          # results of DocsMatchingTerms are the caller's to edit
+    run_family(ctx, "block_drop", n_of(ctx, 16, 112), perfile=4, seed_off=1)      # a destination that reads the inputs while the merge copies their stored blocks
     require_cov(ctx, "tag:nested", "tag:twoblocks")
     run_family(ctx, "conc_sched", n_of(ctx, 60, 1500), perfile=n_of(ctx, 10, 30))
     run_family(ctx, "conc_free", n_of(ctx, 40, 800), perfile=n_of(ctx, 8, 20))
@@ -563,6 +564,7 @@ def plan_C16(ctx):
     run_family(ctx, "many_fields", n_of(ctx, 12, 200), perfile=2)
     run_family(ctx, "merge_chain", n_of(ctx, 40, 600), perfile=10, seed_off=4)
     run_family(ctx, "big_freq", n_of(ctx, 8, 80), perfile=4)                      # sums beyond 2^32 / 2^35 / 2^36
+    run_family(ctx, "fault_then_merge", n_of(ctx, 30, 400), perfile=10, seed_off=3)   # statistics of merges that follow abandoned ones
     canary(ctx)
 
 
